@@ -1,51 +1,181 @@
 import Girc.Spec.Sim
 import Girc.Proofs.InvHandlers
+import Girc.Proofs.SimAttrAux
 /-
   C04 proofs, part 2: messages that change attributes only (no membership change).
   In every statement `st`/`r` are the states AFTER the account-tag step.
+  (Helper lemmas: SimAttrAux.lean.)
 -/
 namespace Girc.Proofs.SimAttr
 open Girc Girc.Model Girc.Spec
+open Girc.Proofs.InvBase Girc.Proofs.InvHandlers
 
 theorem sim_connect {st : St} {r : Ref} (cfg : Cfg) (e : Event) (h : Sim st r)
     (hc : r.conformant cfg e = true) (hcmd : e.command = c001) :
-    Sim (handleConnect st e) (r.cmdStep cfg e) := by sorry
+    Sim (handleConnect st e) (r.cmdStep cfg e) := by
+  rw [cmdStep_c001 cfg r e hcmd]
+  unfold handleConnect
+  obtain ⟨tags, source, command, params⟩ := e
+  rcases params with _ | ⟨p, rest⟩
+  · exact h
+  · exact sim_scalars h rfl rfl rfl rfl rfl rfl rfl h.ident h.host h.motd h.maxLine h.maxPrefix h.opts
+
 
 theorem sim_TOPIC {st : St} {r : Ref} (cfg : Cfg) (e : Event) (h : Sim st r)
     (hcmd : e.command = cTOPIC ∨ e.command = c332) :
-    ∃ st', handleTOPIC st e = .ok st' ∧ Sim st' (r.cmdStep cfg e) := by sorry
+    ∃ st', handleTOPIC st e = .ok st' ∧ Sim st' (r.cmdStep cfg e) := by
+  rw [cmdStep_TOPIC cfg r e hcmd]
+  unfold handleTOPIC
+  obtain ⟨tags, source, command, params⟩ := e
+  rcases params with _ | ⟨n, _ | ⟨t, _ | ⟨x, rest⟩⟩⟩
+  · exact ⟨st, rfl, h⟩
+  · exact sim_topic_ok n [] h
+  · exact sim_topic_ok n t h
+  · exact sim_topic_ok t _ h
+
 
 theorem sim_WHO {st : St} {r : Ref} (cfg : Cfg) (e : Event) (h : Sim st r)
     (hcmd : e.command = c352 ∨ e.command = c354) :
-    ∃ st', handleWHO st e = .ok st' ∧ Sim st' (r.cmdStep cfg e) := by sorry
+    ∃ st', handleWHO st e = .ok st' ∧ Sim st' (r.cmdStep cfg e) := by
+  rcases hcmd with hcmd | hcmd
+  · rw [cmdStep_c352 cfg r e hcmd]
+    unfold handleWHO
+    rw [if_neg (by rw [hcmd]; decide)]
+    obtain ⟨tags, source, command, params⟩ := e
+    by_cases hlen : params.length < 8
+    · dsimp only
+      rw [if_pos hlen, if_pos hlen]
+      exact ⟨st, rfl, h⟩
+    · dsimp only
+      rw [if_neg hlen, if_neg hlen]
+      rcases params with _ | ⟨a, _ | ⟨b, _ | ⟨c, _ | ⟨d, _ | ⟨e, _ | ⟨f, rest⟩⟩⟩⟩⟩⟩
+      all_goals first
+        | (exfalso; simp only [List.length_cons, List.length_nil] at hlen; omega)
+        | skip
+      exact sim_who_ok c d f [] (stripHopcount (Event.last ⟨tags, source, command, a :: b :: c :: d :: e :: f :: rest⟩) 0
+        (Event.last ⟨tags, source, command, a :: b :: c :: d :: e :: f :: rest⟩)) false False (by simp) h
+  · rw [cmdStep_c354 cfg r e hcmd]
+    unfold handleWHO
+    rw [if_pos hcmd]
+    obtain ⟨tags, source, command, params⟩ := e
+    by_cases hlen : params.length = 8
+    · obtain ⟨a, b, c, d, e, f, g, i, rfl⟩ := length_eq_8 params hlen
+      have hb : idx [a, b, c, d, e, f, g, i] 1 = .ok b := rfl
+      dsimp only
+      rw [if_neg (fun hne => hne rfl), hb, ok_bind]
+      by_cases htok : b = sOne
+      · rw [if_neg (fun hne => hne htok), if_neg (fun hne => hne htok)]
+        exact sim_who_ok d e f g i true (g ≠ sZero) (by simp) h
+      · rw [if_pos htok, if_pos htok]
+        exact ⟨st, rfl, h⟩
+    · dsimp only
+      rw [if_pos hlen]
+      refine ⟨st, rfl, ?_⟩
+      split
+      · exact absurd rfl hlen
+      · exact h
+
 
 theorem sim_MYINFO {st : St} {r : Ref} (cfg : Cfg) (e : Event) (h : Sim st r) (hcmd : e.command = c004) :
-    ∃ st', handleMYINFO st e = .ok st' ∧ Sim st' (r.cmdStep cfg e) := by sorry
+    ∃ st', handleMYINFO st e = .ok st' ∧ Sim st' (r.cmdStep cfg e) := by
+  rw [cmdStep_c004 cfg r e hcmd]
+  unfold handleMYINFO
+  obtain ⟨tags, source, command, params⟩ := e
+  rcases params with _ | ⟨x, _ | ⟨a, _ | ⟨b, rest⟩⟩⟩
+  · exact ⟨st, rfl, h⟩
+  · exact ⟨st, rfl, h⟩
+  · exact ⟨st, rfl, h⟩
+  · refine ⟨_, rfl, ?_⟩
+    refine sim_scalars h rfl rfl rfl rfl rfl rfl h.nick h.ident h.host h.motd h.maxLine h.maxPrefix ?_
+    intro k
+    show AMap.get? (AMap.set (AMap.set st.serverOptions sSERVER a) sVERSION b) k
+      = AMap.get? (AMap.set (AMap.set r.options sSERVER a) sVERSION b) k
+    simp only [get?_set, h.opts]
+
 
 theorem sim_ISUPPORT {st : St} {r : Ref} (cfg : Cfg) (e : Event) (h : Sim st r) (hcmd : e.command = c005) :
-    Sim (handleISUPPORT st e) (r.cmdStep cfg e) := by sorry
+    Sim (handleISUPPORT st e) (r.cmdStep cfg e) := by
+  rw [cmdStep_c005 cfg r e hcmd]
+  dsimp only
+  rw [handleISUPPORT_eq, handleISUPPORT_eq]
+  by_cases h1 : (!isSuffixOfB sThisServer e.last) = true
+  · rw [if_pos h1, if_pos h1]; exact h
+  rw [if_neg h1, if_neg h1]
+  by_cases h2 : e.params.length < 2
+  · rw [if_pos h2, if_pos h2]; exact h
+  rw [if_neg h2, if_neg h2]
+  have ho := isupOpts_congr h.opts e
+  have hI := optI_congr ho
+  refine sim_scalars h rfl rfl rfl rfl rfl rfl h.nick h.ident h.host h.motd ?_ ?_ ho
+  · dsimp only
+    rw [hI, hI, hI, hI, hI, h.maxLine, h.maxPrefix]
+  · dsimp only
+    rw [hI, hI, hI, hI, hI, h.maxLine, h.maxPrefix]
+
 
 theorem sim_MOTD {st : St} {r : Ref} (cfg : Cfg) (e : Event) (h : Sim st r)
     (hcmd : e.command = c375 ∨ e.command = c372) :
-    Sim (handleMOTD st e) (r.cmdStep cfg e) := by sorry
+    Sim (handleMOTD st e) (r.cmdStep cfg e) := by
+  unfold handleMOTD
+  rcases hcmd with hcmd | hcmd
+  · rw [cmdStep_c375 cfg r e hcmd, if_pos hcmd]
+    exact sim_scalars h rfl rfl rfl rfl rfl rfl h.nick h.ident h.host rfl h.maxLine h.maxPrefix h.opts
+  · rw [cmdStep_c372 cfg r e hcmd, if_neg (by rw [hcmd]; decide)]
+    refine sim_scalars h rfl rfl rfl rfl rfl rfl h.nick h.ident h.host ?_ h.maxLine h.maxPrefix h.opts
+    show (if st.motd.isEmpty then [] else st.motd ++ [LF]) ++ e.last = _
+    rw [h.motd]; rfl
+
 
 theorem sim_CHGHOST {st : St} {r : Ref} (cfg : Cfg) (e : Event) (h : Sim st r) (hcmd : e.command = cCHGHOST) :
-    Sim (handleCHGHOST st e) (r.cmdStep cfg e) := by sorry
+    Sim (handleCHGHOST st e) (r.cmdStep cfg e) := by
+  rw [cmdStep_CHGHOST cfg r e hcmd]
+  unfold handleCHGHOST
+  obtain ⟨tags, source, command, params⟩ := e
+  rcases source with _ | src
+  · exact h
+  rcases params with _ | ⟨i, _ | ⟨h', _ | ⟨x, rest⟩⟩⟩
+  · exact h
+  · exact h
+  · exact sim_updUser src.name (fun u => { u with ident := i, host := h' }) (fun u => { u with ident := i, host := h' }) h
+      (fun _ => rfl) (fun _ => ⟨rfl, rfl, rfl⟩)
+  · exact h
+
 
 theorem sim_AWAY {st : St} {r : Ref} (cfg : Cfg) (e : Event) (h : Sim st r) (hcmd : e.command = cAWAY) :
-    Sim (handleAWAY st e) (r.cmdStep cfg e) := by sorry
+    Sim (handleAWAY st e) (r.cmdStep cfg e) := by
+  rw [cmdStep_AWAY cfg r e hcmd]
+  unfold handleAWAY
+  obtain ⟨tags, source, command, params⟩ := e
+  rcases source with _ | src
+  · exact h
+  · exact sim_updUser src.name (fun u => { u with away := params.getLastD [] }) (fun u => { u with away := params.getLastD [] }) h
+      (fun _ => rfl) (fun _ => ⟨rfl, rfl, rfl⟩)
+
 
 theorem sim_ACCOUNT {st : St} {r : Ref} (cfg : Cfg) (e : Event) (h : Sim st r) (hcmd : e.command = cACCOUNT) :
-    Sim (handleACCOUNT st e) (r.cmdStep cfg e) := by sorry
+    Sim (handleACCOUNT st e) (r.cmdStep cfg e) := by
+  rw [cmdStep_ACCOUNT cfg r e hcmd]
+  unfold handleACCOUNT
+  obtain ⟨tags, source, command, params⟩ := e
+  rcases source with _ | src
+  · exact h
+  rcases params with _ | ⟨a, _ | ⟨x, rest⟩⟩
+  · exact h
+  · exact sim_updUser src.name (fun u => { u with account := if a = sStar then [] else a })
+      (fun u => { u with account := if a = sStar then [] else a }) h (fun _ => rfl) (fun _ => ⟨rfl, rfl, rfl⟩)
+  · exact h
+
 
 /-- Capability negotiation does not touch anything the relation talks about. -/
 theorem sim_CAP {st : St} {r : Ref} (cfg : Cfg) (e : Event) (h : Sim st r) (hcmd : e.command = cCAP) :
-    Sim (handleCAP cfg st e).1 (r.cmdStep cfg e) := by sorry
+    Sim (handleCAP cfg st e).1 (r.cmdStep cfg e) := by
+  rw [cmdStep_other' cfg r e (by rw [hcmd]; decide)]
+  exact (handleCAP_frame cfg st e).sim h
 
 /-- Any command the tracker does not interpret means nothing to the reference model either. -/
 theorem cmdStep_other (cfg : Cfg) (r : Ref) (e : Event)
     (h : e.command ∉ [c001, cJOIN, cPART, cKICK, cQUIT, cNICK, c353, cMODE, c324, c354, c352, cTOPIC, c332,
       cAWAY, cACCOUNT, cCHGHOST, c004, c005, c375, c372]) :
-    r.cmdStep cfg e = r := by sorry
+    r.cmdStep cfg e = r := cmdStep_other' cfg r e h
 
 end Girc.Proofs.SimAttr
